@@ -1,5 +1,7 @@
 import Uom.Proofs.OpsExact
 import Uom.Proofs.FlConvIdentity
+import Uom.Proofs.BodyEq.Cmp
+import Uom.Proofs.FloatOps
 /-!
 # C10 — equality, ordering and hashing of quantities are mutually coherent
 
@@ -87,5 +89,57 @@ theorem mirror_rat (x y : Rat) : ratCmp x y = (ratCmp y x).map (fun c => -c) := 
 /-- hashing: `Hash for Quantity` hashes the stored value only, so equal quantities of one type (equal
     stored values, for the `Eq` storage types) hash equally whatever the hasher -/
 theorem eq_hash {V H : Type} (hash : V → H) (a b : V) (h : a = b) : hash a = hash b := by rw [h]
+
+/-! ### floats: proved bounds — mixed-base comparison agrees with the order of the physical magnitudes -/
+
+/-- finite floats are totally ordered as their rational values are -/
+theorem cmp_finite (x y : Fl) (hx : x.isFinite = true) (hy : y.isFinite = true) :
+    Fl.cmp x y = some (if x.toRat < y.toRat then -1 else if x.toRat = y.toRat then 0 else 1) :=
+  Proofs.cmp_toRat hx hy
+
+/-- outside a band of `3u|B|` around equality the mixed-base comparison is exact -/
+theorem cmp_mixed (f : Fmt) (h4 : 4 ≤ f.p) (l r a b : Fl) (H : Proofs.ChangeBaseOk f l r b) (ha : a.isFinite = true)
+    (hgap : 3 * Proofs.uro f * |b.toRat * r.toRat / l.toRat| < |a.toRat - b.toRat * r.toRat / l.toRat|) :
+    Fl.cmp a (changeBase (flS f) l r b) =
+      some (if a.toRat < b.toRat * r.toRat / l.toRat then -1
+        else if a.toRat = b.toRat * r.toRat / l.toRat then 0 else 1) :=
+  Proofs.cmp_mixed_sound' h4 H ha hgap
+
+/-- `==` between mixed-base quantities only ever holds for magnitudes within two roundings of each other -/
+theorem eq_mixed (f : Fmt) (hp : 1 ≤ f.p) (l r a b : Fl) (H : Proofs.ChangeBaseOk f l r b) (ha : a.isFinite = true)
+    (h : Fl.feq a (changeBase (flS f) l r b) = true) :
+    |a.toRat - b.toRat * r.toRat / l.toRat| ≤
+      ((1 - Proofs.uro f) ^ (-(2 : ℤ)) - 1) * |b.toRat * r.toRat / l.toRat| :=
+  Proofs.feq_mixed_sound hp H ha h
+
+/-! ### tie to the source: the function bodies regenerated from /repo/src on this run
+
+`Gen.Body.*` below is what the translator read from the Rust source just now; `Body.run` evaluates it
+over any storage type.  These theorems state the property's code path *for the regenerated bodies*:
+they fail to check as soon as the source computes something else. -/
+section SourceTie
+open Uom.Body Uom.Gen.Body
+
+/-- all six comparison entry points and `partial_cmp` compare the left stored value with `change_base`
+    of the right one through the storage type's own comparison; `Ord::cmp` and `Hash::hash` see the
+    stored value only -/
+theorem src_comparisons (N : NumTy) (env : Env N) (a b : N.S.V) (st : Val N) :
+    run N env system_PartialEq_Quantity_for_Quantity_eq_auto [argQ a, argQ b] = .v (binOpOn N .eq (env.bf .Ul .D) (env.bf .Ur .D) a b) ∧
+    run N env system_PartialOrd_Quantity_for_Quantity_lt_auto [argQ a, argQ b] = .v (binOpOn N .lt (env.bf .Ul .D) (env.bf .Ur .D) a b) ∧
+    run N env system_PartialOrd_Quantity_for_Quantity_le_auto [argQ a, argQ b] = .v (binOpOn N .le (env.bf .Ul .D) (env.bf .Ur .D) a b) ∧
+    run N env system_PartialOrd_Quantity_for_Quantity_gt_auto [argQ a, argQ b] = .v (binOpOn N .gt (env.bf .Ul .D) (env.bf .Ur .D) a b) ∧
+    run N env system_PartialOrd_Quantity_for_Quantity_ge_auto [argQ a, argQ b] = .v (binOpOn N .ge (env.bf .Ul .D) (env.bf .Ur .D) a b) ∧
+    run N env system_PartialOrd_Quantity_for_Quantity_partial_cmp_auto [argQ a, argQ b] = .v (binOpOn N .pcmp (env.bf .Ul .D) (env.bf .Ur .D) a b) ∧
+    run N env system_PartialEq_for_Quantity_eq_noauto [argQ a, argQ b] = .v (binOpOff N .eq a b) ∧
+    run N env system_PartialOrd_for_Quantity_lt_noauto [argQ a, argQ b] = .v (binOpOff N .lt a b) ∧
+    run N env system_PartialOrd_for_Quantity_le_noauto [argQ a, argQ b] = .v (binOpOff N .le a b) ∧
+    run N env system_PartialOrd_for_Quantity_gt_noauto [argQ a, argQ b] = .v (binOpOff N .gt a b) ∧
+    run N env system_PartialOrd_for_Quantity_ge_noauto [argQ a, argQ b] = .v (binOpOff N .ge a b) ∧
+    run N env system_PartialOrd_for_Quantity_partial_cmp_noauto [argQ a, argQ b] = .v (binOpOff N .pcmp a b) ∧
+    run N env system_Ord_for_Quantity_cmp [argQ a, argQ b] = env.fwd m_cmp [argV a, argV b] ∧
+    run N env system_Hash_for_Quantity_hash [argQ a, st] = env.fwd m_hash [argV a, st] :=
+  ⟨rfl, rfl, rfl, rfl, rfl, rfl, rfl, rfl, rfl, rfl, rfl, rfl, rfl, rfl⟩
+
+end SourceTie
 
 end Uom.C10
